@@ -23,11 +23,10 @@ Proof. exact tick_exact. Qed.
 Print Assumptions C15_tick_exact.
 
 (* A tick that is still queued when the last URR of its period has gone (or whose period never existed)
-   does nothing at all; after Close the injection faults (send on the closed event channel). *)
+   does nothing at all; after Close whatever is posted is dropped by the queue. *)
 Theorem C15_stale_tick : forall evs p a,
   wf_hist evs -> (forall x u, ~ In (p, (x, u)) (regs (spec_run evs))) ->
-  step (run evs) (Tick p a) = (run evs, []) \/
-  step (run evs) (Tick p a) = (run evs, [FaultSendOnClosed]).
+  step (run evs) (Tick p a) = (run evs, []).
 Proof. exact tick_stale. Qed.
 Print Assumptions C15_stale_tick.
 
